@@ -865,6 +865,10 @@ def run(run: Run):
                         '(shared with C07.R9)')
     run.guard('C06.R15', _pe6.hostile_obligations, run, 'C06.R15', src, g)
     run.floor('C06.R15', 40)
+    run.rule('C06.R16', 'formulas that cannot be translated end in a library exception, end to end by evaluation (references without a row, '
+                        'unknown sheets, truncated and over-long argument lists)')
+    run.guard('C06.R16', _pe6.reject_obligations, run, 'C06.R16', src, g)
+    run.floor('C06.R16', 10)
     run.rule('C06.R14', 'a formula that does not fit the grammar is rejected with the parser exception wherever it ends (shared with C05.R2)')
     run.guard('C06.R14', _lx.parser_obligations, run, 'C06.R14', src, g, _lx.PARSE_PROBES[20:])
     run.floor('C06.R14', 10)
